@@ -158,18 +158,19 @@ pub mod tree {
     pub const L2: u64 = 0x86; // Root/A/L2 binary
     pub const L3: u64 = 0x87; // Root/A/B/L3 uint
     pub const A2: u64 = 0x88; // Root/A2 master (sibling of A)
+    pub const C: u64 = 0x89; // Root/A/B/C master (4th level: has a non-direct, non-root ancestor)
     pub const VOID: u64 = 0xEC; // (-)/Void
     pub const CRC: u64 = 0xBF; // (1-)/Crc
-    pub const ALL: [u64; 10] = [ROOT, A, B, ROOT2, L1, L2, L3, A2, VOID, CRC];
+    pub const ALL: [u64; 11] = [ROOT, A, B, ROOT2, L1, L2, L3, A2, C, VOID, CRC];
 }
 spec_table!(Tree {
     0x81 => Master, 0x82 => Master, 0x83 => Master, 0x84 => Master,
-    0x85 => UnsignedInt, 0x86 => Binary, 0x87 => UnsignedInt, 0x88 => Master,
+    0x85 => UnsignedInt, 0x86 => Binary, 0x87 => UnsignedInt, 0x88 => Master, 0x89 => Master,
     0xEC => Binary, 0xBF => Binary,
 } paths {
     0x82 => [Id(0x81)], 0x83 => [Id(0x81), Id(0x82)],
     0x85 => [Id(0x81)], 0x86 => [Id(0x81), Id(0x82)], 0x87 => [Id(0x81), Id(0x82), Id(0x83)],
-    0x88 => [Id(0x81)],
+    0x88 => [Id(0x81)], 0x89 => [Id(0x81), Id(0x82), Id(0x83)],
     0xEC => [Global((None, None))], 0xBF => [Global((Some(1), None))],
 });
 
